@@ -574,6 +574,12 @@ func (e *env) doBlock(st *simkit.Step, reexec int) {
 	if e.prop == "C01" {
 		e.checkConservation(store, before, blk, rcpts, "producer")
 	}
+	if e.prop == "C03" {
+		e.labC03(parent, blk, rcpts, before)
+		if x.Failed() {
+			return
+		}
+	}
 	// ---- validators: fresh re-execution from the parent state ----
 	for vi, v := range e.vals {
 		vstore := v.Disk.Store("state")
@@ -629,9 +635,6 @@ func (e *env) doBlock(st *simkit.Step, reexec int) {
 		if e.prop == "C01" && vi == 0 {
 			e.checkConservation(vstore, nil, blk, rcpts, "validator")
 		}
-	}
-	if e.prop == "C03" {
-		e.labC03(parent, blk, rcpts, before)
 	}
 	e.pending = map[int]int{}
 	e.refreshNonces()
